@@ -36,6 +36,17 @@ func (self *mmLexInfo) Loc() SourceLoc {
 	return self.loc
 }
 
+// advance moves the location past the given text.
+func (loc *SourceLoc) advance(text []byte) {
+	for _, b := range text {
+		if b == '\n' {
+			loc.Line++
+			loc.Col = 0
+		}
+		loc.Col++
+	}
+}
+
 func (self *mmLexInfo) Lex(lval *mmSymType) int {
 	// Loop until we return a token or run out of data.
 	for {
@@ -51,18 +62,13 @@ func (self *mmLexInfo) Lex(lval *mmSymType) int {
 		// Advance the cursor pos.
 		self.pos += len(val)
 		if self.incCol {
-			self.loc.Col += len(self.token)
+			// The previous token may contain newlines (a string literal).
+			self.loc.advance(self.token)
 		}
 
 		// If whitespace or comment, advance line count by counting newlines.
 		if tokid == SKIP {
-			for _, b := range val {
-				if b == '\n' {
-					self.loc.Line++
-					self.loc.Col = 0
-				}
-				self.loc.Col++
-			}
+			self.loc.advance(val)
 			self.incCol = false
 			continue
 		} else if tokid == COMMENT {
